@@ -4,9 +4,22 @@
 use std::panic;
 fn main() {
     let mut bad = 0;
-    for t in std::env::args().skip(1) {
+    for arg in std::env::args().skip(1) {
+        // "pad:<literal>": the literal is followed by more input (first element of an array), which
+        // is what selects the 16-byte fraction reader
+        let (t, padded) = match arg.strip_prefix("pad:") {
+            Some(r) => (r.to_string(), true),
+            None => (arg.clone(), false),
+        };
         let want: f64 = t.parse().unwrap();
-        let got = panic::catch_unwind(|| sonic_rs::from_str::<f64>(&t));
+        let got = panic::catch_unwind(|| {
+            if padded {
+                let doc = format!("[{},{}]", t, "1".repeat(24));
+                sonic_rs::from_str::<Vec<f64>>(&doc).map(|v| v[0])
+            } else {
+                sonic_rs::from_str::<f64>(&t)
+            }
+        });
         match got {
             Err(_) => {
                 println!("REPLAY text={} verdict=panic", t);
